@@ -113,6 +113,11 @@ class Model:
                 mod = mod[: -len(".__init__")]
             self._walk(tree.body, mod, None, mod, rel, None)
         self._finish_classes()
+        self.flattener = None
+        if not os.environ.get("VERIF_NO_FLATTEN"):
+            from .flatten import flatten_model
+
+            self.flattener = flatten_model(self)
 
     # ------------------------------------------------------------------ building
     def _walk(self, body, prefix, cls, mod, path, parent_fn):
